@@ -15,6 +15,7 @@ import threading
 from pathlib import Path
 
 from . import harness, membackend, refcodec
+from .harness import Repository
 
 GRAPHS = ('plain', 'same', 'shared', 'clone', 'indep', 'mixed')
 EPOCH = _dt.datetime(2030, 1, 1)
@@ -192,49 +193,75 @@ class Session:
         o.target = tgt
         return o
 
-    def ls(self, user, snapshot_regex=None, **kw):
+    def ls(self, user, snapshot_regex=None, columns=None, header=False, **kw):
+        from replicat.utils import SnapshotListColumn as C
+        allc = [C.NAME, C.NOTE, C.TIMESTAMP, C.FILE_COUNT, C.SIZE]
+        cols = [C.NAME] + [c for c in (columns or allc) if c != C.NAME]
         S = self._S(snapshot_regex)
-        o = self.world.command(user, lambda r: r.list_snapshots(snapshot_regex=snapshot_regex, header=False), **kw)
+        o = self.world.command(user, lambda r: r.list_snapshots(snapshot_regex=snapshot_regex, header=header,
+                                                                columns=None if columns is None else cols), **kw)
         rows, cells = [], True
         name2sid = {n: s for s, n in self.snapname.items()}
         if o.ok:
-            for line in o.out.splitlines():
+            lines = o.out.splitlines()
+            if header and lines:
+                hd = [x.strip() for x in lines[0].split('\t')]
+                if hd != [Repository.SNAPSHOT_LIST_COLUMN_LABELS[c].upper() for c in cols]:
+                    cells = False
+                lines = lines[1:]
+            for line in lines:
                 c = [x.strip() for x in line.split('\t')]
-                if len(c) != 5 or c[0] not in name2sid:
+                if len(c) != len(cols) or c[0] not in name2sid:
                     cells = False
                     continue
                 sid = name2sid[c[0]]
                 d = self.defs[sid - 1]
-                detailed = c[2] != '--'
+                readable = user in d['readers'] and d['fam'] == self.fam[user]
+                truth = {C.NOTE: d['note'] if d['note'] is not None else '--', C.TIMESTAMP: d['stamp'],
+                         C.FILE_COUNT: str(len(d['files'])), C.SIZE: indep_bytes_to_human(d['size'])}
+                got = dict(zip(cols[1:], c[1:]))
+                # "detailed" = some private cell is shown
+                detailed = any(v != '--' for k, v in got.items())
+                if len(cols) == 1:
+                    detailed = readable      # name-only listing shows no private cell either way
                 rows.append([sid, detailed])
-                if detailed:
-                    exp = [d['note'] if d['note'] is not None else '--', d['stamp'], str(len(d['files'])), indep_bytes_to_human(d['size'])]
-                    if c[1:] != exp:
+                if detailed and readable:
+                    if any(got[k] != truth[k] for k in got):
                         cells = False
-                elif c[1:] != ['--'] * 4:
-                    cells = False
         self._marker('out', {'a': 'ls', 'p': 1, 'u': user, 'S': S, 'ok': bool(o.ok), 'rows': rows, 'cells': cells, 'etype': o.etype}, 'out')
         return o
 
-    def lf(self, user, snapshot_regex=None, file_regex=None, **kw):
+    def lf(self, user, snapshot_regex=None, file_regex=None, columns=None, header=False, **kw):
         from replicat.utils import FileListColumn as C
         S = self._S(snapshot_regex)
         F = sorted(self._match(file_regex, self.paths))
-        cols = [C.SNAPSHOT_NAME, C.PATH, C.SNAPSHOT_DATE, C.CHUNK_COUNT, C.SIZE, C.DIGEST, C.MTIME]
-        o = self.world.command(user, lambda r: r.list_files(snapshot_regex=snapshot_regex, file_regex=file_regex, header=False, columns=cols), **kw)
+        extra = columns if columns is not None else [C.SNAPSHOT_DATE, C.CHUNK_COUNT, C.SIZE, C.DIGEST, C.MTIME]
+        cols = [C.SNAPSHOT_NAME, C.PATH] + [c for c in extra if c not in (C.SNAPSHOT_NAME, C.PATH)]
+        o = self.world.command(user, lambda r: r.list_files(snapshot_regex=snapshot_regex, file_regex=file_regex, header=header, columns=cols), **kw)
         rows, cells = [], True
         name2sid = {n: s for s, n in self.snapname.items()}
         if o.ok:
-            for line in o.out.splitlines():
+            lines = o.out.splitlines()
+            if header and lines:
+                hd = [x.strip() for x in lines[0].split('\t')]
+                if hd != [Repository.FILE_LIST_COLUMN_LABELS[c].upper() for c in cols]:
+                    cells = False
+                lines = lines[1:]
+            for line in lines:
                 c = [x.strip() for x in line.split('\t')]
-                if len(c) != 7 or c[0] not in name2sid or c[1] not in self.paths:
+                if len(c) != len(cols) or c[0] not in name2sid or c[1] not in self.paths:
                     cells = False
                     continue
                 sid = name2sid[c[0]]
                 d = self.defs[sid - 1]
                 rows.append([sid, self.paths[c[1]]])
                 fi = d['fileinfo'].get(c[1])
-                if fi is None or c[2:] != [d['stamp'], str(fi['nchunks']), indep_bytes_to_human(fi['size']), fi['digest'], fi['mtime']]:
+                if fi is None:
+                    cells = False
+                    continue
+                truth = {C.SNAPSHOT_DATE: d['stamp'], C.CHUNK_COUNT: str(fi['nchunks']), C.SIZE: indep_bytes_to_human(fi['size']),
+                         C.DIGEST: fi['digest'], C.MTIME: fi['mtime'], C.ATIME: fi['atime'], C.CTIME: fi['ctime']}
+                if any(v != truth[k] for k, v in zip(cols[2:], c[2:])):
                     cells = False
         self._marker('out', {'a': 'lf', 'p': 1, 'u': user, 'S': S, 'F': F, 'ok': bool(o.ok), 'rows': rows, 'cells': cells, 'etype': o.etype}, 'out')
         return o
@@ -315,10 +342,11 @@ class Session:
             d['files'].append([self.pid(f['path']), v])
             size = sum(r['range'][1] - r['range'][0] for r in f['chunks'])
             d['size'] += size
-            mdt = _dt.datetime.fromtimestamp((mt or 0) / 1e9, tz=_dt.timezone.utc).replace(tzinfo=None)
+            def _fmt(ns):
+                return _dt.datetime.fromtimestamp((ns or 0) / 1e9, tz=_dt.timezone.utc).replace(tzinfo=None).isoformat(sep=' ', timespec='seconds')
             d['fileinfo'][f['path']] = {'nchunks': len(f['chunks']), 'size': size,
                                         'digest': f['digest'].hex() if f.get('digest') else '--',
-                                        'mtime': mdt.isoformat(sep=' ', timespec='seconds')}
+                                        'mtime': _fmt(mt), 'atime': _fmt(md.get('st_atime_ns')), 'ctime': _fmt(md.get('st_ctime_ns'))}
             if whole is not None and f.get('digest') is not None and k0.hash(whole) != f['digest']:
                 ok = False
         d['files'] = sorted(d['files'])
